@@ -146,15 +146,22 @@ def push_value(node: AbbreviationNode, state: IndentWalkState):
 
         # Output each line, padded to max length
         out.level += 1
+        # All lines belong to the same value: fields of every line must be
+        # numbered from the same base to keep their relative numbering
+        field_base = state.field
+        field_next = field_base
         for i, line in enumerate(lines):
             out.push_newline(True)
             if before:
                 out.push(before)
+            state.field = field_base
             push_tokens(line, state)
+            field_next = max(field_next, state.field)
             if after:
                 out.push(' ' * (max_length - line_lengths[i]))
                 out.push(after)
 
+        state.field = field_next
         out.level -= 1
 
 def is_primary_attribute(attr: AbbreviationAttribute):
